@@ -27,7 +27,12 @@ func init() {
 		r.rule += "; plus refresh scenarios with lists that carry no cRLNumber, the same thisUpdate or the same number (the refreshed list must be in force)"
 		c11Numberless(r, "C08")
 	})
-	register("C10", func(r *Run) { runRepoProps(r, "C10"); c10LoaderStream(r) })
+	register("C10", func(r *Run) {
+		runRepoProps(r, "C10")
+		c10LoaderStream(r)
+		r.rule += "; plus confusable distribution-point sets (a set loaded first, then a set that differs only by how its strings are glued together and serves nothing) on the real validator, strict"
+		c10ConfusableCdpSets(r)
+	})
 	register("C11", func(r *Run) {
 		runRepoProps(r, "C11")
 		r.rule += "; plus refresh scenarios with lists that carry no cRLNumber (v1, v2 without the extension), the same thisUpdate or the same number"
